@@ -23,7 +23,7 @@ ARR = ['[]', '[1]', '[1,2,3]', '[[]]', '[[1,2],[3]]', '["a"]', '[nil]', '[nil, n
        '[3, 0]', '[2, 5]']
 BOOL = ['true', 'false']
 CODE = ['{}', '{1}', '{nil}', '{_x}', '{true}', '{false}', '{_x > 1}', '{1 + "a"}', '{[]}', '{_this}', '{throw 1}', '{_x == _y}', '{"a"}', '{[_x, _y]}']
-OBJ = ['objNull', 'OBJ', 'OBJ2']
+OBJ = ['objNull', 'OBJ', 'OBJ2', 'TRUCK']
 GRP = ['grpNull', 'GRP']
 CFG = ['configNull', 'configFile', '(configFile >> "CfgVehicles")', '(configFile >> "nothere")', '(configFile >> "CfgVehicles" >> "B_Soldier_F")']
 SIDE = ['west', 'east', 'sideUnknown', 'sideEmpty']
@@ -44,6 +44,7 @@ SETUP = {
     'OBJ': 'OBJ = "B_Soldier_F" createVehicle [0, 0, 0];',
     'OBJ2': 'OBJ2 = (createGroup west) createUnit ["B_Soldier_F", [1, 1, 0], [], 0, "NONE"];',
     'GRP': 'GRP = createGroup west;',
+    'TRUCK': 'TRUCK = "B_Truck_01" createVehicle [5, 5, 0];',
     'MAPBIG': 'MAPBIG = createHashMap; for "_i" from 1 to 200 do { MAPBIG set [_i, [_i]] };',
     'NANARR': 'NANARR = []; for "_i" from 1 to 24 do { NANARR pushBack (log -1) };',
     'NANSUB': 'NANSUB = []; for "_i" from 1 to 24 do { NANSUB pushBack [(log -1), _i] };',
